@@ -12,6 +12,8 @@ type SimpleRegoResult struct {
 	TraceValue string           // evidence value for tracing
 	TraceNode  string           // trace code
 	PathRules  []RegoPathResult //path rules to generate the path rule
+	// the custom rego code of the constraint defines the message variable itself ($message)
+	CustomMessage bool
 }
 
 func (r SimpleRegoResult) ConstraintId() string {
